@@ -337,7 +337,7 @@ def main():
     chk.assumptions = ['resource exhaustion by legitimately huge work (a padding of 10^9 characters) is not generated; nesting depths stay within what the default 8 MB stack holds for correct recursive code',
                        'LeakSanitizer is not enabled in this check (C19 measures allocation balance exactly)']
     chk.ensure(FLAVOUR, 'xvdrv')
-    n = 2000 if chk.tier == 'quick' else 150000
+    n = 2000 if chk.tier == 'quick' else 30000
     chk.run_cases('c03', 'case', range(n))
     if chk.tier == 'thorough' or os.environ.get('VERIF_FUZZ'):
         chk.ensure('fuzz', 'xvfuzz')
